@@ -82,7 +82,10 @@ pub fn realize_bad_debt(
         // in order to realize all the bad debt vault need extra tokens from insuranceFund
         let bad_debt_delta = bad_debt.checked_sub(state.prepaid_bad_debt).unwrap();
 
-        messages.push(execute_insurance_fund_withdrawal(deps, bad_debt_delta).unwrap());
+        // nothing to fetch when the prepaid amount covers the bad debt exactly
+        if !bad_debt_delta.is_zero() {
+            messages.push(execute_insurance_fund_withdrawal(deps, bad_debt_delta).unwrap());
+        }
 
         state.prepaid_bad_debt = Uint128::zero();
 
